@@ -93,7 +93,7 @@ class World:
             if ndim == 1:
                 arr = np.array(flat, dtp)
             elif ndim == 2:
-                arr = np.array(flat, dtp).reshape(len(rows), len(rows[0]) if rows else 1)
+                arr = np.array(flat, dtp).reshape(len(rows), len(rows[0]) if rows else 1).copy()
             else:
                 arr = np.array(flat, dtp).reshape(len(rows), 1, 1)
         if kind == "view":
@@ -486,6 +486,39 @@ def gen_history(world: World, kind: str, length: int, weights=None, irregular_bi
                                   "err": None if e is None else (base_of(e), type(e).__name__),
                                   "before": before, "after": world.full_state(), "warn": [], "args_changed": False})
     return main
+
+
+def make_wfm(world: World, name: str, kind: str, tag: int, rows, ncols: int, timing_spec, scale: int, props: dict,
+             extra_cap: int = 0, borrowed: bool = False):
+    """Construct a waveform holding `rows` (via an array, copy semantics chosen by `borrowed`) and register its line."""
+    CLS = world.CLS[kind]
+    digital = kind == "digital"
+    nd = 2 if digital else 1
+    if extra_cap and not borrowed:
+        # new-array constructor + load_data would add lines; use the array constructor with trailing slack instead
+        pad = [[0] * ncols for _ in range(extra_cap)]
+        arr = world.mk_array(tag, rows + pad, nd, "owned")
+        cnt = len(rows)
+    else:
+        arr = world.mk_array(tag, rows, nd, "view" if borrowed else "owned")
+        cnt = None
+    timing, ttok = world.mk_timing(timing_spec)
+    kw = dict(sample_count=cnt, extended_properties=dict(props))
+    if kind != "spectrum":
+        kw["timing"] = timing
+    if kind in ("analog", "complex"):
+        kw["scale_mode"] = world.mk_scale(scale)
+
+    def th():
+        if digital or kind == "spectrum":
+            o = CLS(data=arr, **kw)
+        else:
+            o = CLS(raw_data=arr, **kw)
+        world.objs[name] = (kind, o)
+        return o
+    line = (f"warr {name} {kind} {world.arr_token(arr)} - 1 - {opt(cnt)} - - {props_token(props)} {ttok} {scale}")
+    rec = world.run(line, th, name, kind)
+    return None if rec["err"] is not None else world.objs[name][1]
 
 
 def compare_with_model(ctx, world: World, driver: str = "drivers/Wfm.lean"):
